@@ -6,7 +6,7 @@ use crate::gen::{self, DocParams, QGen};
 use crate::obs::{self, DocBox, DocInner};
 use crate::report;
 use crate::rng::{derive, fnv, fnv_add, Rng};
-use crate::sched::{self, Ctx, Fault, InjectedAbort, Policy, Sched, SchedStats};
+use crate::sched::{self, Ctx, Fault, InjectedAbort, Jump, Policy, Sched, SchedStats};
 use crate::simdoc::{self, Personality};
 use jsonpath_rust::parser::model::JpQuery;
 use serde::{Deserialize, Serialize};
@@ -85,6 +85,9 @@ pub struct Plan {
     /// the stubbed store's `get` calls back into the library (a nested evaluation) on every call
     #[serde(default)]
     pub reenter_get: bool,
+    /// clock jumps injected through the clock seam (simclock.so)
+    #[serde(default)]
+    pub clock_jumps: Vec<Jump>,
 }
 
 #[derive(Clone, Debug, Serialize, Deserialize)]
@@ -114,6 +117,10 @@ pub struct Probes {
     pub first_op_kind: String,
     pub threads_used: u64,
     pub switch_at_regex_pre: u64,
+    #[serde(default)]
+    pub clock_seam: bool,
+    #[serde(default)]
+    pub clock_reads: u64,
 }
 
 #[derive(Clone, Debug, Serialize, Deserialize)]
@@ -410,7 +417,7 @@ pub fn execute(plan: Plan, full: bool) -> RunResult {
     let slots = plan.slots.iter().map(|cs| Mutex::new(Arc::new(Shared(DocBox::new(&values[cs[0]], sim_repr(plan.repr), cs[0]))))).collect();
     let n = plan.clients.len();
     let follow = plan.schedule.as_ref().and_then(|s| sched::unrle(s));
-    let sch = Sched::new(n, plan.seed, plan.policy.clone(), plan.site_mask, plan.faults.clone(), follow, true, 5_000_000);
+    let sch = Sched::new(n, plan.seed, plan.policy.clone(), plan.site_mask, plan.faults.clone(), plan.clock_jumps.clone(), follow, true, 5_000_000);
     let w = Arc::new(World {
         values,
         slots,
@@ -496,6 +503,8 @@ pub fn execute(plan: Plan, full: bool) -> RunResult {
     let mut probes = w.probes.lock().unwrap().clone();
     probes.threads_used = threads_used.load(std::sync::atomic::Ordering::Relaxed);
     probes.switch_at_regex_pre = st.switches_by_site.get(8).copied().unwrap_or(0);
+    probes.clock_seam = sched::clock_seam_present();
+    probes.clock_reads = sched::clock_reads().unwrap_or(0);
     // plan-shape probes
     let mut q_contents: HashMap<usize, BTreeSet<usize>> = HashMap::new();
     for r in &recs {
@@ -739,7 +748,16 @@ fn self_exe() -> std::path::PathBuf {
 }
 
 pub fn spawn_with_input(args: &[&str], input: &str, timeout_s: u64) -> Result<String, String> {
-    let mut child = Command::new(self_exe())
+    let mut cmd = Command::new(self_exe());
+    // the clock seam is preloaded into run processes only; the cold oracle reads the real clock
+    if args.first() == Some(&"run") {
+        if let Ok(p) = std::env::var("VERIF_SIMCLOCK") {
+            if std::path::Path::new(&p).exists() {
+                cmd.env("LD_PRELOAD", p);
+            }
+        }
+    }
+    let mut child = cmd
         .args(args)
         .env("VERIF_QUIET_PANICS", "1")
         .stdin(Stdio::piped())
@@ -972,6 +990,15 @@ pub fn gen_corpus_with(seed: u64, n_fam: usize, q_per_fam: usize, adv: bool) -> 
             for q in ["$.huge[?@ > 3]", "$.huge[?@ == 0]", "$.huge[::50]", "$.huge[-1]", "$.huge[512]", "$.huge[?@ == 's1']", "$[?length(@) == 20]", "$[?length(@) > 30]", "$..[?length(@) == 40]",
                       "$[?length(@.s) == 40]", "$.u[?length(@) <= 22]", "$.huge[100:140]", "$.huge[?match(@, 's.')]", "$..s", "$[?count(@.huge[*]) > 512]", "$.wide.*", "$.wide[?@ == 3]", "$.wide.k64", "$.wide['k1','k70','k2']", "$.wide..*", "$[?count(@.*) > 64]", "$[?search(@, 'tail')]", "$[?match(@, 'ab')]", "$..[?search(@, 'a')]", "$[?match(@.s, 'ab')]", "$[?length(@) > 4096]", "$.u[?search(@, 'ipsum')]"] {
                 queries.push(q.to_string());
+                fq.push(queries.len() - 1);
+                q_other_family.push(f);
+            }
+            // huge query texts: tens of kilobytes (parser limits, text-keyed tables, buffers sized by the query)
+            let big_union = format!("$.wide[{}]", (0..3000).map(|i| format!("'k{}'", i)).collect::<Vec<_>>().join(","));
+            let big_or = format!("$.huge[?{}]", (0..700).map(|i| format!("@=={}", i % 9)).collect::<Vec<_>>().join("||"));
+            let big_chain = format!("$.wide{}", "['k1']".repeat(400));
+            for q in [big_union, big_or, big_chain] {
+                queries.push(q);
                 fq.push(queries.len() - 1);
                 q_other_family.push(f);
             }
@@ -1334,6 +1361,15 @@ pub fn gen_plan_opt(c: &Corpus, run_seed: u64, allow_stress: bool) -> (Plan, Pla
         }
     }
     let thread_per_op = rng.chance(1, 8);
+    // one run in seven sees its clock jump (seconds to a year) at a few schedule points inside operations
+    let mut clock_jumps: Vec<Jump> = vec![];
+    if rng.chance(1, 7) {
+        for _ in 0..(1 + rng.below(3)) {
+            let cl = rng.below(n_clients);
+            let j = rng.below(clients[cl].len());
+            clock_jumps.push(Jump { c: cl, op: j, nth: rng.below(12) as u32, secs: *rng.pick(&[1u64, 6, 10, 61, 3600, 86_400, 31_536_000]) });
+        }
+    }
     // one run in ten makes a few calls from deep inside the caller's own stack (0.25 - 3 MiB down)
     let mut deep_stack = vec![];
     if rng.chance(1, 10) {
@@ -1359,6 +1395,7 @@ pub fn gen_plan_opt(c: &Corpus, run_seed: u64, allow_stress: bool) -> (Plan, Pla
         filler_from: if stress { Some(n_normal_q) } else { None },
         deep_stack,
         reenter_get: repr > 0 && !stress && rng.chance(1, 4),
+        clock_jumps,
     };
     // fillers select nothing whatever the document (their names occur nowhere), so they need no cold
     // process each; a sample of them is computed cold anyway, to check exactly that assumption
@@ -1512,6 +1549,7 @@ fn still_fails(plan: &Plan, table: &ColdTable, class: &str, kind: &str) -> Optio
 fn remove_op(plan: &Plan, c: usize, from: usize, to: usize) -> Plan {
     let mut p = plan.clone();
     p.clients[c].drain(from..to);
+    p.clock_jumps = plan.clock_jumps.iter().filter_map(|j| if j.c != c { Some(j.clone()) } else if j.op >= from && j.op < to { None } else if j.op >= to { Some(Jump { c: j.c, op: j.op - (to - from), nth: j.nth, secs: j.secs }) } else { Some(j.clone()) }).collect();
     p.deep_stack = plan.deep_stack.iter().filter_map(|(cc, j, k)| if *cc != c { Some((*cc, *j, *k)) } else if *j >= from && *j < to { None } else if *j >= to { Some((*cc, j - (to - from), *k)) } else { Some((*cc, *j, *k)) }).collect();
     // faults refer to op indices: shift or drop
     p.faults = plan
@@ -1536,6 +1574,7 @@ fn remove_client(plan: &Plan, c: usize) -> Plan {
     let mut p = plan.clone();
     p.clients.remove(c);
     p.deep_stack = plan.deep_stack.iter().filter(|(cc, _, _)| *cc != c).map(|(cc, j, k)| (if *cc > c { cc - 1 } else { *cc }, *j, *k)).collect();
+    p.clock_jumps = plan.clock_jumps.iter().filter(|j| j.c != c).map(|j| Jump { c: if j.c > c { j.c - 1 } else { j.c }, op: j.op, nth: j.nth, secs: j.secs }).collect();
     p.faults = plan.faults.iter().filter(|f| f.c != c).map(|f| Fault { c: if f.c > c { f.c - 1 } else { f.c }, op: f.op, nth: f.nth, site: f.site }).collect();
     p
 }
@@ -1911,6 +1950,11 @@ pub fn drive(tier_name: &str, seed: u64, workers: usize) -> i32 {
             *probes_sum.entry("ops_after_abort_on_same_client").or_insert(0) += r.probes.ops_after_abort_on_same_client;
             *probes_sum.entry("switch_at_regex_pre").or_insert(0) += r.probes.switch_at_regex_pre;
             *probes_sum.entry("os_threads_used").or_insert(0) += r.probes.threads_used;
+            *probes_sum.entry("clock_jumps_fired").or_insert(0) += r.sched.clock_jumps_fired;
+            *probes_sum.entry("clock_reads_by_the_run_processes").or_insert(0) += r.probes.clock_reads;
+            if r.probes.clock_seam {
+                *probes_sum.entry("runs_with_the_clock_seam_preloaded").or_insert(0) += 1;
+            }
             let has_twins = plan.queries.iter().any(|q| q.contains("?match(") && plan.queries.contains(&q.replacen("?match(", "?search(", 1)));
             if has_twins {
                 *probes_sum.entry("runs_with_match_and_search_same_pattern").or_insert(0) += 1;
